@@ -288,7 +288,6 @@ EXPORT wchar_t *_wcstok_s_chk(wchar_t *restrict dest, rsize_t *restrict dmaxp,
             if (unlikely(slen == 0)) {
                 *ptr = NULL;
                 *dmaxp = 0;
-                *dest = L'\0';
                 invoke_safe_str_constraint_handler(
                     "wcstok_s: delim is unterminated", (void *)delim, ESUNTERM);
                 errno = ESUNTERM;
@@ -339,7 +338,6 @@ EXPORT wchar_t *_wcstok_s_chk(wchar_t *restrict dest, rsize_t *restrict dmaxp,
             if (unlikely(slen == 0)) {
                 *ptr = NULL;
                 *dmaxp = 0;
-                *dest = L'\0';
                 invoke_safe_str_constraint_handler(
                     "wcstok_s: delim is unterminated", (void *)delim, ESUNTERM);
                 errno = ESUNTERM;
